@@ -117,6 +117,7 @@ func Held(mu any) bool {
 
 // Native reports whether the harness runs natively (replay) rather than symbolically.
 func Native() bool { return true }
+func WaitGhostNe(obj any, key string, old int) {}
 func RaceMonitor()   {}
 
 // NativeUnsupported ends a native replay that cannot be faithful (e.g. it would need a symbolic-only stub).
